@@ -6,6 +6,7 @@ package main
 import (
 	"encoding/binary"
 	"fmt"
+	"sync"
 
 	"verif/space"
 )
@@ -29,10 +30,13 @@ const nestKinds = 9
 var nestKindNames = []string{"arr", "arr-indef", "map-val", "map-key", "constr121", "tag6", "arr-open", "indef-open", "tag24-bytes"}
 
 var nestCache = map[[2]int][]byte{}
+var nestMu sync.Mutex
 
 // nestBytes returns a self-contained nested structure of the given kind and depth.
 func nestBytes(kind, k int) []byte {
 	key := [2]int{kind, k}
+	nestMu.Lock()
+	defer nestMu.Unlock()
 	if b, ok := nestCache[key]; ok {
 		return b
 	}
@@ -156,7 +160,7 @@ type embedded struct {
 // seedFamilies builds all mutation families of one valid encoding. maxPos bounds the number
 // of node positions used by the nest / tag-wrap families (stride selection, deterministic);
 // substAll forces all 255 substitution values. level is the embedding depth.
-func seedFamilies(seedName string, sd []byte, isCbor bool, maxPos int, level int) []family {
+func seedFamilies(seedName string, sd []byte, isCbor bool, maxPos int, level int, headsOnly bool) []family {
 	var fams []family
 	L := len(sd)
 	mk := func(name string, n int, get func(i int) []byte) {
@@ -174,6 +178,26 @@ func seedFamilies(seedName string, sd []byte, isCbor bool, maxPos int, level int
 				off, v := i/255, byte(i%255)
 				if v >= sd[off] {
 					v++
+				}
+				o := append([]byte(nil), sd...)
+				o[off] = v
+				return o
+			})
+		} else if headsOnly && isCbor {
+			// quick tier, large seed: the 16 values at every byte of every item head (initial
+			// byte and argument bytes) as located by the harness's own reader
+			var offs []int
+			if root, err := space.Parse(sd); err == nil && root != nil {
+				root.Walk(func(n *space.Node, _ []int) {
+					for o := n.Start; o < n.HdrEnd; o++ {
+						offs = append(offs, o)
+					}
+				})
+			}
+			mk("subst16@heads", len(offs)*len(confusing), func(i int) []byte {
+				off, v := offs[i/len(confusing)], confusing[i%len(confusing)]
+				if v == sd[off] {
+					return nil
 				}
 				o := append([]byte(nil), sd...)
 				o[off] = v
@@ -200,31 +224,6 @@ func seedFamilies(seedName string, sd []byte, isCbor bool, maxPos int, level int
 	}
 	var nodes []*space.Node
 	root.Walk(func(n *space.Node, _ []int) { nodes = append(nodes, n) })
-	substCovers := func(v []byte) bool {
-		// true when v equals a single-byte substitution already enumerated above
-		if level != 0 || len(v) != L {
-			return false
-		}
-		diff, at := 0, -1
-		for i := range v {
-			if v[i] != sd[i] {
-				diff++
-				at = i
-			}
-		}
-		if diff != 1 {
-			return diff == 0
-		}
-		if L <= 256 {
-			return true
-		}
-		for _, c := range confusing {
-			if c == v[at] {
-				return true
-			}
-		}
-		return false
-	}
 	// (3) length-field inflation
 	var edits []edit
 	for _, n := range nodes {
@@ -234,26 +233,60 @@ func seedFamilies(seedName string, sd []byte, isCbor bool, maxPos int, level int
 			}
 		}
 	}
-	apply := func(e edit) []byte {
+	repl := func(e edit) (start, end int, r []byte) {
 		switch e.kind {
 		case 0:
 			form := -1
 			if e.b == 1<<63 {
 				form = 8
 			}
-			return splice(sd, e.start, e.end, appendHead(nil, byte(e.a), e.b, form))
+			return e.start, e.end, appendHead(nil, byte(e.a), e.b, form)
 		case 1:
-			return splice(sd, e.start, e.end, nestBytes(int(e.a), int(e.b)))
+			return e.start, e.end, nestBytes(int(e.a), int(e.b))
 		case 2:
-			return splice(sd, e.start, e.end, appendHead(nil, 6, e.a, -1))
+			return e.start, e.end, appendHead(nil, 6, e.a, -1)
 		default:
-			return splice(sd, e.start, e.start, appendHead(nil, 6, e.a, -1))
+			return e.start, e.start, appendHead(nil, 6, e.a, -1)
 		}
+	}
+	apply := func(e edit) []byte {
+		st, en, r := repl(e)
+		return splice(sd, st, en, r)
+	}
+	// coveredBySubst: the edit yields the seed itself or a single-byte substitution that the
+	// subst family above already enumerates (decided on the replaced range only)
+	coveredBySubst := func(e edit) bool {
+		st, en, r := repl(e)
+		if len(r) != en-st {
+			return false
+		}
+		diff, at := 0, -1
+		for i := range r {
+			if r[i] != sd[st+i] {
+				diff++
+				at = i
+			}
+		}
+		if diff == 0 {
+			return true
+		}
+		if diff != 1 || level != 0 {
+			return false
+		}
+		if L <= 256 {
+			return true
+		}
+		for _, c := range confusing {
+			if c == r[at] {
+				return true // at a head byte: enumerated by subst16 and by subst16@heads alike
+			}
+		}
+		return false
 	}
 	family1 := func(name string, es []edit) {
 		es2 := es[:0:0]
 		for _, e := range es {
-			if !substCovers(apply(e)) {
+			if !coveredBySubst(e) {
 				es2 = append(es2, e)
 			}
 		}
@@ -312,7 +345,7 @@ func seedFamilies(seedName string, sd []byte, isCbor bool, maxPos int, level int
 			inner := append([]byte(nil), n.Bytes...)
 			e := embedded{start: n.Start, hdrEnd: n.HdrEnd, end: n.End}
 			form := []int{-1, 1, 2, 4, 8}[n.Form]
-			sub := seedFamilies(seedName, inner, true, maxPos, level+1)
+			sub := seedFamilies(seedName, inner, true, maxPos, level+1, headsOnly)
 			for _, f := range sub {
 				f := f
 				mk("emb/"+f.name, f.n, func(i int) []byte {
@@ -342,4 +375,114 @@ func standaloneNests() family {
 	return family{name: "nest-alone", n: nestKinds * len(nestDepths), get: func(i int) []byte {
 		return append([]byte(nil), nestBytes(i/len(nestDepths), nestDepths[i%len(nestDepths)])...)
 	}}
+}
+
+// scanDepth returns the deepest container/tag nesting a reader reaches in b before the first
+// malformation (lenient structural scan of the first data item, explicit stack, own code).
+// Byte-string contents are not entered. Used only to scale the memory bound: re-decoding a
+// nested item once per enclosing level is the designed cost of the decoders (depth is capped
+// at 256 by the decoder configuration), allocation driven by a claimed length is not.
+func scanDepth(b []byte) int {
+	type frame struct {
+		rem   int64 // remaining items; -1 = indefinite
+		isStr bool  // indefinite string: only definite chunks allowed
+	}
+	var st []frame
+	max := 0
+	p := 0
+	for {
+		if p >= len(b) {
+			return max
+		}
+		ib := b[p]
+		if ib == 0xff {
+			if len(st) == 0 || st[len(st)-1].rem != -1 {
+				return max
+			}
+			p++
+			st = st[:len(st)-1]
+		} else {
+			major, ai := ib>>5, ib&0x1f
+			p++
+			var arg uint64
+			switch {
+			case ai < 24:
+				arg = uint64(ai)
+			case ai <= 27:
+				n := 1 << (ai - 24)
+				if p+n > len(b) {
+					return max
+				}
+				for i := 0; i < n; i++ {
+					arg = arg<<8 | uint64(b[p+i])
+				}
+				p += n
+			case ai == 31:
+				if major == 0 || major == 1 || major == 6 || major == 7 {
+					return max
+				}
+			default:
+				return max
+			}
+			push := func(f frame) {
+				st = append(st, f)
+				if len(st) > max {
+					max = len(st)
+				}
+			}
+			switch major {
+			case 2, 3:
+				if ai == 31 {
+					push(frame{rem: -1, isStr: true})
+					continue
+				}
+				if arg > uint64(len(b)-p) {
+					return max
+				}
+				p += int(arg)
+			case 4:
+				if ai == 31 {
+					push(frame{rem: -1})
+					continue
+				}
+				if arg > 0 {
+					if arg > 1<<40 {
+						arg = 1 << 40
+					}
+					push(frame{rem: int64(arg)})
+					continue
+				}
+			case 5:
+				if ai == 31 {
+					push(frame{rem: -1})
+					continue
+				}
+				if arg > 0 {
+					if arg > 1<<40 {
+						arg = 1 << 40
+					}
+					push(frame{rem: 2 * int64(arg)})
+					continue
+				}
+			case 6:
+				push(frame{rem: 1})
+				continue
+			}
+		}
+		// one item completed: pop finished definite containers
+		for len(st) > 0 {
+			t := &st[len(st)-1]
+			if t.rem == -1 {
+				break
+			}
+			t.rem--
+			if t.rem > 0 {
+				break
+			}
+			st = st[:len(st)-1]
+		}
+		if len(st) == 0 {
+			return max
+		}
+	}
 }
